@@ -186,7 +186,7 @@ CHECKS = {
              'is wider), the logits are that row\'s, the frame window starts at the first cell of the image and ends with the last '
              'cell lying entirely inside it, tight-crop returns that window, no-logits returns none.  Sparse storage: on one frame of '
              'log-weights an entry is kept unchanged iff its posterior is >= 1e-4 (softmax through the quotient abstraction).  '
-             'An empty logit matrix passes through the sparsification.  Bound: 0..3 lines (quick), 0..4 (thorough; 4 only in the dense flavour).',
+             'An empty logit matrix passes through the sparsification.  Bound: 0..3 lines (3 only in the dense flavour: quick; in all flavours: thorough); four lines were measured (> 90 min) and are not scheduled.',
         note='Trusted: z3 (linear integer arithmetic with floor division); the stub network (locality of frames is the property\'s own '
              'hypothesis); witness replay on the real process_lines with a recording network.',
         design='4/C07'),
